@@ -7,16 +7,18 @@
 EXTENDS MC_WalkOps, D42TraceBase
 
 Verdict(e) ==
-  IF e.exc # "" THEN "FAIL:walk_raised:"
-  ELSE IF \E j \in DOMAIN e.files : e.files[j].changed /\ ~MustRewrite(e.files[j])
-       THEN "FAIL:file_outside_the_walk_was_modified:"
-  ELSE IF \E j \in DOMAIN e.files : MustRewrite(e.files[j]) /\ ~e.files[j].changed
-       THEN "FAIL:eligible_file_not_rewritten:"
+  \* "rewrites imports and nothing else": a file that is not a Python module readable as UTF-8 with a
+  \* v1 import in it has nothing to rewrite, wherever it lies
+  IF \E j \in DOMAIN e.files : e.files[j].changed /\ ~Rewritable(e.files[j])
+       THEN "FAIL:file_without_v1_imports_was_modified:"
   ELSE IF \E j \in DOMAIN e.files : e.files[j].changed /\ ~e.files[j].rewrite_ok
        THEN "FAIL:file_content_is_not_the_rewrite:"
   ELSE "OK"
 
-Drift(e) == FALSE
+\* which directories the walk enters and that it survives every tree: the tool's policy today
+Drift(e) ==
+  \/ e.exc # ""
+  \/ \E j \in DOMAIN e.files : e.files[j].changed # MustRewrite(e.files[j])
 
 TraceNext == TraceStep(Verdict, Drift)
 
